@@ -131,6 +131,24 @@ Proof.
   intros c j n H E. rewrite <- (get_node_resolve c j H), E. reflexivity.
 Qed.
 
+(* get_node reads the physically stored node at the resolved position *)
+Lemma raw_lt : forall l p i, i < size p -> raw (l :: p) i = raw p i.
+Proof. intros l p i H. simpl. destruct (Nat.ltb_spec i (size p)); [reflexivity|lia]. Qed.
+
+Lemma get_node_raw : forall c i, chain_ok c -> get_node c i = raw c (resolve c i).
+Proof.
+  induction c as [|l p IH]; intros i H; [reflexivity|]. pose proof H as H0. destruct H as [H1 H2].
+  rewrite get_node_cons. set (r := resolve (l :: p) i).
+  destruct (Nat.ltb_spec r (size p)) as [Hlt|Hge].
+  - rewrite (raw_lt l p r Hlt). rewrite IH by exact H2. f_equal.
+    unfold r in *. rewrite resolve_cons in *.
+    destruct (redir_get_cases (l_redir l) (pre p i)) as [E|E].
+    + rewrite E in *. unfold pre in *. destruct (Nat.ltb_spec i (size p)); [|lia].
+      apply resolve_idem. exact H2.
+    + apply H1 in E. lia.
+  - simpl. destruct (Nat.ltb_spec r (size p)); [lia|reflexivity].
+Qed.
+
 (* ------------------------------------------------------------------ get_node after the primitive writes *)
 Lemma get_node_beyond : forall p l i, redir_ok p l -> size (l :: p) <= i -> get_node (l :: p) i = NEmpty.
 Proof.
